@@ -260,6 +260,28 @@ def run(ctx):
         V.violation(ctx, "the implementation panicked (%s, %s): %s" % (pn.get("config"), pn.get("where"), str(pn.get("panic"))[:200]),
                     {"broken": "panic of the code under test", "failing": pn}, found_input=True)
 
+    # ---- the whole public property API (total properties with an ideal-gas model): every ordered pair; pure evaluators
+    api = impl.get("api_pairs") or []
+    api_pairs_n = sum(a["ordered_pairs"] for a in api)
+    api_worst = max([fnum(a["worst_rel"]) for a in api] or [0.0])
+    for a in api:
+        touched = a["cache_touched_by_pure_evaluators"]
+        fails = a["failures"]
+        if fails:
+            f0 = fails[0]
+            V.violation(ctx, "history-dependent value on %s: State::%s evaluated after State::%s differs from its value on a fresh state "
+                        "(rel. %s)" % (a["config"], f0["history"][-1], f0["history"][0], f0["rel_dev"]),
+                        {"broken": "API sweep: every ordered pair of public property functions vs fresh state (tolerance %g relative)" % a["tolerance"],
+                         "failing": fails[:4], "cache_touched_by_pure_evaluators": touched,
+                         "theorem": "C11_pure_evaluators_invisible / C11_getters_history_independent"}, found_input=True)
+        elif touched:
+            V.violation(ctx, "a pure evaluator of the public API modifies the derivative cache on %s: %s" % (a["config"], touched[0]["function"]),
+                        {"broken": "API sweep: pure evaluators leave the cache untouched (C11_pure_evaluators_invisible)", "config": a["config"],
+                         "state_TVN": a["state_TVN"], "cases": touched}, found_input=False)
+        for pn in a["panics"][:2]:
+            V.violation(ctx, "the implementation panicked (%s, %s): %s" % (pn.get("config"), pn.get("where"), str(pn.get("panic"))[:200]),
+                        {"broken": "panic of the code under test", "failing": pn}, found_input=True)
+
     pp = impl.get("par_pure")
     if pp:
         w = fnum(pp["worst_rel"])
@@ -307,7 +329,10 @@ def run(ctx):
                        "model_vs_implementation": "exact (bit patterns, map contents, counters); responses read through public getters within 4 ulp"},
         "support_search": {"level": "exploration (not counted among obligations)",
                            "thread_stress_runs": stress_runs, "thread_stress_responses": stress_resp,
-                           "oracle_consistency_sweep": {k: sweep.get(k) for k in ("configurations", "states", "comparisons", "worst_rel", "worst_case", "per_config")},
+                           "api_ordered_pairs": {"pairs": api_pairs_n, "worst_rel": api_worst,
+                                                 "configs": [{k: a[k] for k in ("config", "state_TVN", "functions", "pure_evaluators", "ordered_pairs",
+                                                                                "tolerance", "worst_rel", "worst_case", "sample_functions")} for a in api]},
+                           "oracle_consistency_sweep": {k: sweep.get(k) for k in ("configurations", "states", "states_where_the_model_reports_an_error_(NaN)", "comparisons", "worst_rel", "worst_case", "per_config")},
                            "par_pure": {k: pp[k] for k in ("runs", "runs_with_non_default_options", "states_compared", "grids", "grids_with_failing_points",
                                                            "failing_grid_points", "outcomes", "worst_rel", "samples")} if pp else None},
         "samples": samples,
